@@ -156,8 +156,12 @@ func (g *PG) strLit() *Expr {
 	var v string
 	if g.C.PlainStr {
 		n := Int(g.T, 0, 6, "pslen")
+		if Chance(g.T, 8, "pslong") {
+			// tens of characters, many of them of several bytes
+			n = Int(g.T, 20, 60, "pslen2")
+		}
 		for i := 0; i < n; i++ {
-			v += Pick(g.T, "psch", []string{"a", "b", "Z", " ", "-", "_", "#", ";", "(", "{", "é"})
+			v += Pick(g.T, "psch", []string{"a", "b", "Z", " ", "-", "_", "#", ";", "(", "{", "é", "é", "日", "😀"})
 		}
 		return &Expr{K: "str", T: QuotePlain(v)}
 	}
